@@ -147,6 +147,7 @@ func registerC18Oracles() {
 	Oracle("c18.total.tcp_handle_message", func(a []Val) (string, string) { return c18TotalNbns(2, a[0].B) })
 	Oracle("c18.total.defend_redirect", func(a []Val) (string, string) {
 		var p nbtns.NBTNSPacket
+		dirty(&p)
 		if _, err := p.Unmarshal(exact(a[0].B)); err != nil {
 			return "", ""
 		}
@@ -311,6 +312,7 @@ func oracleResponseForRequest(a []Val) (string, string) {
 			return "C18/resp-not-a-response", where
 		}
 		var p nbtns.NBTNSPacket
+		dirty(&p)
 		n, err := p.Unmarshal(exact(resp))
 		if err != nil || n != len(resp) {
 			qd := binary.BigEndian.Uint16(resp[4:6])
@@ -319,6 +321,7 @@ func oracleResponseForRequest(a []Val) (string, string) {
 				fixed := append([]byte{}, resp...)
 				fixed[4], fixed[5] = 0, 0
 				var p2 nbtns.NBTNSPacket
+				dirty(&p2)
 				if n2, err2 := p2.Unmarshal(exact(fixed)); err2 == nil && n2 == len(fixed) {
 					return "C18/resp-qdcount-without-questions", fmt.Sprintf("%s: response %x announces QDCOUNT=%d but carries no question entry; a parser reads the answer records as questions (%v)", where, resp, qd, err)
 				}
@@ -971,6 +974,7 @@ func oracleChallengeRcode(a []Val) (string, string) {
 				return
 			}
 			var q nbtns.NBTNSPacket
+			dirty(&q)
 			if _, err := q.Unmarshal(exact(buf[:n])); err != nil || len(q.Questions) == 0 {
 				continue
 			}
